@@ -36,6 +36,9 @@ def _copy_pkg(src_root: Path, dst_root: Path) -> None:
         return [n for n in names if n in ("tests", "benchmarks", "__pycache__")]
 
     shutil.copytree(src_root / "pynetdicom", dst_root / "pynetdicom", ignore=ignore)
+    # the documentation tables are C21's oracle ("as documented")
+    if (src_root / "docs" / "service_classes").is_dir():
+        shutil.copytree(src_root / "docs" / "service_classes", dst_root / "docs" / "service_classes")
 
 
 def apply_edits(root: Path, m: dict) -> str | None:
